@@ -29,6 +29,7 @@ type c10Case struct {
 	Desugar []int     `json:"desugar,omitempty"` // indices of commands compared with their desugared form
 	Request string    `json:"request,omitempty"` // web: the probed request r
 	Others  []string  `json:"others,omitempty"`  // web: requests served before / concurrently
+	Phase   string    `json:"phase,omitempty"`   // web: "seq" | "conc" | "" (both)
 	Note    string    `json:"note,omitempty"`
 }
 
@@ -180,6 +181,7 @@ type c10Outcome struct {
 	Desugared  int
 	AfterMut   int // probes that had an executed report command before them
 	Hits       []string
+	seen       *sync.Map // signatures already confirmed in this run (nil: examine every difference)
 }
 
 func c10CaseDir(cs *c10Case) (string, *profile.Profile, error) {
@@ -269,8 +271,8 @@ func c10Prefix(lines []c10Line, assign []bool, i int) []string {
 
 // c10RunInteractive executes one case against the real binary. It does not touch c.Res (it runs
 // on worker goroutines); the caller folds the outcome in.
-func c10RunInteractive(pprofBin string, cs *c10Case, m *c10Model) *c10Outcome {
-	out := &c10Outcome{}
+func c10RunInteractive(pprofBin string, cs *c10Case, m *c10Model, seen *sync.Map) *c10Outcome {
+	out := &c10Outcome{seen: seen}
 	dir, p, err := c10CaseDir(cs)
 	if dir != "" {
 		defer os.RemoveAll(dir)
@@ -380,7 +382,7 @@ func c10RunInteractive(pprofBin string, cs *c10Case, m *c10Model) *c10Outcome {
 			out.AfterMut++
 		}
 		got, want := main.Segs[i], ref.Segs[len(ref.Segs)-1]
-		if got.key() != want.key() && c10Confirm(pprofBin, dir, fmt.Sprintf("cf%d", k), texts[:i+1], append(c10Prefix(cs.Lines, assign, i), cs.Lines[i].Text), got, want, out, cs.Lines[i].Text) {
+		if got.key() != want.key() && c10Confirm(pprofBin, dir, fmt.Sprintf("cf%d", k), texts[:i+1], append(c10Prefix(cs.Lines, assign, i), cs.Lines[i].Text), got, want, out, cs.Lines[i].Text, "C10/interactive/history-dependent/probe="+c10CmdName(cs.Lines[i].Text)) {
 			out.Mismatches = append(out.Mismatches, c10Mismatch{Sig: "C10/interactive/history-dependent/probe=" + c10CmdName(cs.Lines[i].Text),
 				What: fmt.Sprintf("line %d %q: transcript after the history differs from the transcript in a fresh session replaying only the %d assignment lines before it — %s",
 					i, cs.Lines[i].Text, len(ref.Segs)-1, c10SegDiff(got, want)), Probe: i})
@@ -412,7 +414,7 @@ func c10RunInteractive(pprofBin string, cs *c10Case, m *c10Model) *c10Outcome {
 			}
 			out.Desugared++
 			got, want := main.Segs[i], ref.Segs[len(ref.Segs)-1]
-			if got.key() != want.key() && c10Confirm(pprofBin, dir, fmt.Sprintf("cd%d", k), texts[:i+1], script, got, want, out, cs.Lines[i].Text) {
+			if got.key() != want.key() && c10Confirm(pprofBin, dir, fmt.Sprintf("cd%d", k), texts[:i+1], script, got, want, out, cs.Lines[i].Text, "C10/model/args-desugar/"+c10CmdName(cs.Lines[i].Text)) {
 				out.Mismatches = append(out.Mismatches, c10Mismatch{Sig: "C10/model/args-desugar/" + c10CmdName(cs.Lines[i].Text),
 					What: fmt.Sprintf("line %d %q: differs from %q — %s", i, cs.Lines[i].Text, strings.Join(script[len(script)-len(m.Lines[i].Diff)-1:], " ; "), c10SegDiff(got, want)),
 					Broken: "correspondence Session.parseCommandLine ~ parseCommandLine(): what the arguments of a command mean", Probe: i})
@@ -422,25 +424,72 @@ func c10RunInteractive(pprofBin string, cs *c10Case, m *c10Model) *c10Outcome {
 	return out
 }
 
-// c10Confirm: pprof has reports whose text varies from run to run on identical input (that is C08's
-// subject, not C10's). A difference counts only if it is stable: both sessions are repeated, and the
-// difference is dismissed as soon as the two sides have produced a common transcript.
-func c10Confirm(pprofBin, dir, tag string, mainScript, refScript []string, got, want c10Seg, out *c10Outcome, line string) bool {
-	a, b := map[string]bool{got.key(): true}, map[string]bool{want.key(): true}
-	for t := 0; t < 4; t++ {
-		m := c10RunSession(pprofBin, dir, fmt.Sprintf("%s-m%d", tag, t), mainScript, false)
-		r := c10RunSession(pprofBin, dir, fmt.Sprintf("%s-r%d", tag, t), refScript, false)
-		if m.Err != "" || r.Err != "" || len(m.Segs) == 0 || len(r.Segs) == 0 {
-			continue
+// c10Confirm: pprof has reports whose text varies from run to run on IDENTICAL input (weblist,
+// dot with call_tree, … — C08's subject, not C10's). A difference counts only if it is stable:
+//  1. equal after erasing order (token bags) ⇒ dismissed;
+//  2. the reference session is repeated: if the reference is deterministic, the session with the
+//     history must never reproduce it in 3 more runs; if the reference itself varies, both sides are
+//     run 8 times and the difference counts only if the reference showed at most 2 variants and the
+//     two sides never produced a common observation (otherwise: undecidable here, left to C08).
+func c10Confirm(pprofBin, dir, tag string, mainScript, refScript []string, got, want c10Seg, out *c10Outcome, line, sig string) bool {
+	if out.seen != nil {
+		if _, done := out.seen.Load(sig); done {
+			return false // confirmed once in this run; later instances are not re-examined
 		}
-		a[m.Segs[len(m.Segs)-1].key()] = true
-		b[r.Segs[len(r.Segs)-1].key()] = true
-		for k := range a {
-			if b[k] {
-				out.Hits = append(out.Hits, "run-to-run-nondeterministic-output(C08):"+c10CmdName(line))
-				return false
+	}
+	if got.mkey() == want.mkey() {
+		out.Hits = append(out.Hits, "C08-run-to-run-order-only-difference:"+c10CmdName(line))
+		return false
+	}
+	last := func(script []string, name string) (string, bool) {
+		s := c10RunSession(pprofBin, dir, name, script, false)
+		if s.Err != "" || len(s.Segs) != len(script) {
+			return "", false
+		}
+		return s.Segs[len(s.Segs)-1].mkey(), true
+	}
+	M, R := map[string]bool{got.mkey(): true}, map[string]bool{want.mkey(): true}
+	common := func() bool {
+		for k := range M {
+			if R[k] {
+				return true
 			}
 		}
+		return false
+	}
+	for t := 0; t < 3; t++ {
+		if k, ok := last(refScript, fmt.Sprintf("%s-r%d", tag, t)); ok {
+			R[k] = true
+		}
+	}
+	if common() {
+		out.Hits = append(out.Hits, "C08-run-to-run-nondeterministic-output:"+c10CmdName(line))
+		return false
+	}
+	rounds := 3
+	if len(R) > 1 {
+		rounds = 7
+	}
+	for t := 0; t < rounds; t++ {
+		if k, ok := last(mainScript, fmt.Sprintf("%s-m%d", tag, t)); ok {
+			M[k] = true
+		}
+		if len(R) > 1 {
+			if k, ok := last(refScript, fmt.Sprintf("%s-q%d", tag, t)); ok {
+				R[k] = true
+			}
+		}
+		if common() {
+			out.Hits = append(out.Hits, "C08-run-to-run-nondeterministic-output:"+c10CmdName(line))
+			return false
+		}
+	}
+	if len(R) > 2 {
+		out.Hits = append(out.Hits, "C08-output-too-nondeterministic-to-compare:"+c10CmdName(line))
+		return false
+	}
+	if out.seen != nil {
+		out.seen.Store(sig, true)
 	}
 	return true
 }
@@ -482,7 +531,7 @@ func c10Shrink(pprofBin string, cs *c10Case, pi int, c *Ctx) *c10Case {
 	cur := &c10Case{Kind: "interactive", Profile: cs.Profile, Lines: append([]c10Line{}, cs.Lines[:pi+1]...), Probes: []int{pi}}
 	fails := func(t *c10Case) bool {
 		m := c10AskModel(c, c10MustProfile(t.Profile), t.Lines)
-		o := c10RunInteractive(pprofBin, t, m)
+		o := c10RunInteractive(pprofBin, t, m, nil)
 		for _, mm := range o.Mismatches {
 			if mm.Broken == "" {
 				return true
@@ -493,7 +542,7 @@ func c10Shrink(pprofBin string, cs *c10Case, pi int, c *Ctx) *c10Case {
 	if !fails(cur) {
 		return cs
 	}
-	for changed, budget := true, 40; changed && budget > 0; {
+	for changed, budget := true, 25; changed && budget > 0; {
 		changed = false
 		for j := len(cur.Lines) - 2; j >= 0 && budget > 0; j-- {
 			t := &c10Case{Kind: "interactive", Profile: cur.Profile}
@@ -542,7 +591,8 @@ func c10Fold(c *Ctx, cs *c10Case, m *c10Model, o *c10Outcome, shrink bool) {
 		}
 		rc := cs
 		sig := mm.Sig
-		if shrink && !c.Res.sigSeen["violation"+sig] {
+		if shrink && !c.Res.sigSeen["violation"+sig] && c.Res.Dist["violations-minimised"] < 2 {
+			c.Res.Dist["violations-minimised"]++
 			rc = c10Shrink(c.Pprof, cs, mm.Probe, c)
 			// name the commands that are left in the minimal history
 			var culprits []string
@@ -572,17 +622,21 @@ func runC10(c *Ctx) {
 		c.Res.Evaluations++
 		switch cs.Kind {
 		case "web":
-			c10WebCase(c, &cs)
+			if os.Getenv("C10_CHILD") != "" {
+				c10WebCase(c, &cs)
+			} else {
+				c10WebFold(c, &cs, true)
+			}
 		default:
 			m := c10AskModel(c, c10MustProfile(cs.Profile), cs.Lines)
-			o := c10RunInteractive(c.Pprof, &cs, m)
+			o := c10RunInteractive(c.Pprof, &cs, m, nil)
 			c10Fold(c, &cs, m, o, false)
 		}
 		return
 	}
 	r := NewRng(c.Seed)
 	// ---------------- interactive stream ----------------
-	n := 56 * c.Scale
+	n := 300 * c.Scale
 	type job struct {
 		cs *c10Case
 		m  *c10Model
@@ -621,6 +675,7 @@ func runC10(c *Ctx) {
 		jobs[i] = &job{cs: cs, m: m}
 	}
 	var wg sync.WaitGroup
+	var confirmed sync.Map
 	sem := make(chan struct{}, 16)
 	for _, j := range jobs {
 		wg.Add(1)
@@ -628,7 +683,7 @@ func runC10(c *Ctx) {
 		go func(j *job) {
 			defer wg.Done()
 			defer func() { <-sem }()
-			j.o = c10RunInteractive(c.Pprof, j.cs, j.m)
+			j.o = c10RunInteractive(c.Pprof, j.cs, j.m, &confirmed)
 		}(j)
 	}
 	wg.Wait()
@@ -655,7 +710,7 @@ func runC10(c *Ctx) {
 		c10Fold(c, j.cs, j.m, j.o, true)
 	}
 	// ---------------- web stream: one child process per case ----------------
-	nw := 12 * c.Scale
+	nw := 80 * c.Scale
 	wcases := make([]*c10Case, nw)
 	for i := range wcases {
 		p := c10GenProfile(r)
@@ -666,27 +721,18 @@ func runC10(c *Ctx) {
 		}
 		wcases[i] = cs
 	}
-	type wres struct {
-		res *Result
-		err string
-	}
-	wr := make([]wres, nw)
+	outs := make([][]c10WebOut, nw)
 	for i, cs := range wcases {
 		wg.Add(1)
 		sem <- struct{}{}
 		go func(i int, cs *c10Case) {
 			defer wg.Done()
 			defer func() { <-sem }()
-			wr[i].res, wr[i].err = c10WebChild(c, cs, i)
+			outs[i] = c10WebRun(c, cs)
 		}(i, cs)
 	}
 	wg.Wait()
 	for i, cs := range wcases {
-		if wr[i].err != "" {
-			c.Disagree("C10/harness/web-child", "web case child process failed: "+wr[i].err, "correspondence harness ~ web handlers", cs)
-			continue
-		}
-		cr := wr[i].res
 		filt := false
 		for _, o := range cs.Others {
 			if strings.Contains(o, "?") {
@@ -694,13 +740,52 @@ func runC10(c *Ctx) {
 			}
 		}
 		c.Res.Count("web:"+cs.Request+"|"+strings.Join(cs.Others, "|"), filt)
+		if i < 2 {
+			c.Res.Sample(map[string]any{"stream": "web", "request": cs.Request, "others": cs.Others})
+		}
+		c10WebMerge(c, cs, outs[i])
+	}
+}
+
+type c10WebOut struct {
+	phase string
+	res   *Result
+	err   string
+}
+
+// c10WebRun: the sequential and the concurrent phase each in a child process of their own, so that a
+// crash of the concurrent phase (fatal error: concurrent map writes …) does not hide the sequential verdict.
+func c10WebRun(c *Ctx, cs *c10Case) []c10WebOut {
+	phases := []string{"seq", "conc"}
+	if cs.Phase != "" {
+		phases = []string{cs.Phase}
+	}
+	var out []c10WebOut
+	for _, ph := range phases {
+		t := *cs
+		t.Phase = ph
+		r, e := c10WebChild(c, &t)
+		out = append(out, c10WebOut{ph, r, e})
+	}
+	return out
+}
+
+func c10WebFold(c *Ctx, cs *c10Case, _ bool) { c10WebMerge(c, cs, c10WebRun(c, cs)) }
+
+func c10WebMerge(c *Ctx, cs *c10Case, outs []c10WebOut) {
+	for _, o := range outs {
+		t := *cs
+		t.Phase = o.phase
+		if o.err != "" {
+			// the case is concrete and replayable: the web UI process died while serving it
+			c.Violation("C10/web/crash/"+o.phase, "the process serving the web UI died during the "+o.phase+" phase of the case: "+o.err, &t)
+			continue
+		}
+		cr := o.res
 		for k, v := range cr.Dist {
 			c.Res.Dist[k] += v
 		}
 		c.Res.ModelCompared += cr.ModelCompared
-		if i < 2 {
-			c.Res.Sample(map[string]any{"stream": "web", "request": cs.Request, "others": cs.Others})
-		}
 		for _, f := range cr.Findings {
 			if c.Res.sigSeen[f.Kind+f.Signature] {
 				continue
@@ -709,14 +794,14 @@ func runC10(c *Ctx) {
 			c.Res.Findings = append(c.Res.Findings, f)
 		}
 		if cr.HarnessError != "" {
-			c.Disagree("C10/harness/web-child", "web case child: "+cr.HarnessError, "correspondence harness ~ web handlers", cs)
+			c.Disagree("C10/harness/web-child", "web case child: "+cr.HarnessError, "correspondence harness ~ web handlers", &t)
 		}
 	}
 }
 
 // c10WebChild runs one web case in a fresh process of this very harness (replay mode), because the
 // option store of internal/driver is process-wide and the reference must come from a pristine process.
-func c10WebChild(c *Ctx, cs *c10Case, idx int) (*Result, string) {
+func c10WebChild(c *Ctx, cs *c10Case) (*Result, string) {
 	self, err := os.Executable()
 	if err != nil {
 		return nil, err.Error()
@@ -739,11 +824,20 @@ func c10WebChild(c *Ctx, cs *c10Case, idx int) (*Result, string) {
 		args = append(args, "-drv", c.Drv.cmd.Path)
 	}
 	cmd := exec.Command(self, args...)
-	cmd.Env = append(os.Environ(), "XDG_CONFIG_HOME="+filepath.Join(dir, "cfg"), "HOME="+dir, "PATH="+filepath.Join(dir, "nopath"))
+	cmd.Env = append(os.Environ(), "C10_CHILD=1", "XDG_CONFIG_HOME="+filepath.Join(dir, "cfg"), "HOME="+dir, "PATH="+filepath.Join(dir, "nopath"))
 	outb, err := cmd.CombinedOutput()
 	rb, rerr := os.ReadFile(of)
 	if rerr != nil {
-		return nil, fmt.Sprintf("no result (%v): %s", err, c10Trunc(string(outb)))
+		msg := string(outb)
+		if i := strings.Index(msg, "fatal error:"); i >= 0 {
+			msg = msg[i:]
+		} else if i := strings.Index(msg, "panic:"); i >= 0 {
+			msg = msg[i:]
+		}
+		if i := strings.Index(msg, "\n"); i > 0 {
+			msg = msg[:i]
+		}
+		return nil, fmt.Sprintf("no result (%v): %s", err, c10Trunc(msg))
 	}
 	var res Result
 	if err := json.Unmarshal(rb, &res); err != nil {
